@@ -164,12 +164,7 @@ func (v *VerifTrack) Layer() uint32 {
 
 // SetLimitSid does what replaceTracks does to the layer word.
 func (v *VerifTrack) SetLimitSid(limit bool) {
-	layer := v.down.getLayerInfo()
-	layer.limitSid = limit
-	if limit {
-		layer.wantedSid = 0
-	}
-	v.down.setLayerInfo(layer)
+	v.down.setLimitSid(limit)
 }
 
 // SetRates fixes what the rate estimator and the bitrate limits return.
